@@ -82,6 +82,8 @@ pub struct Prog {
 
 #[derive(Clone, Debug, Default)]
 pub struct Rendered {
+    /// item address -> byte offset of the item's first byte in its file
+    pub pos: std::collections::HashMap<usize, usize>,
     pub files: Vec<(String, String)>,
     /// (file index, item path hash) -> line number of each `__LINE__ in render order per file
     pub line_numbers: Vec<Vec<u32>>,
@@ -93,6 +95,7 @@ pub struct Renderer<'r> {
     pub per_line: bool,
     pub comments: bool,
     pub comment_seps: bool,
+    pub pos: std::collections::HashMap<usize, usize>,
 }
 
 fn render_piece(p: &Piece, formals: &[(String, Option<String>)]) -> String {
@@ -161,7 +164,7 @@ pub fn render_define(m: &MacroDef) -> String {
 impl<'r> Renderer<'r> {
     pub fn new(r: &'r mut Rng) -> Renderer<'r> {
         let per_line = r.chance(1, 2);
-        Renderer { r, per_line, comments: true, comment_seps: false }
+        Renderer { r, per_line, comments: true, comment_seps: false, pos: Default::default() }
     }
     fn sep(&mut self) -> &'static str {
         if self.comment_seps && self.r.chance(1, 3) {
@@ -180,6 +183,12 @@ impl<'r> Renderer<'r> {
 
     pub fn items(&mut self, items: &[Item], out: &mut String, lines: &mut Vec<u32>) {
         for (ix, it) in items.iter().enumerate() {
+            let key = it as *const Item as usize;
+            match it {
+                Item::Define(_) | Item::Undef(_) | Item::UndefAll | Item::Kept(_) | Item::Cond { .. } => self.bol(out),
+                _ => {}
+            }
+            self.pos.insert(key, out.len());
             match it {
                 Item::Tok(t) => {
                     out.push_str(t);
@@ -305,6 +314,8 @@ pub fn render_opt(p: &Prog, r: &mut Rng, comment_seps: bool) -> Rendered {
         let mut rr = Renderer::new(r);
         rr.comment_seps = comment_seps;
         rr.items(&f.items, &mut s, &mut lines);
+        let pos = std::mem::take(&mut rr.pos);
+        rd.pos.extend(pos);
         if !s.ends_with('\n') {
             s.push('\n');
         }
@@ -349,14 +360,28 @@ pub struct Quirks {
 #[derive(Clone, Debug)]
 pub enum TableEntry {
     Bare,
-    Def(MacroDef),
+    /// definition, file index and offset of its body text (the byte after the macro name / formal list)
+    Def(MacroDef, usize, usize),
     /// caller-supplied body text
     Ext(String),
     ExtNoBody,
 }
 
+/// where an expected output token comes from
+#[derive(Clone, Debug, PartialEq, Eq)]
+pub enum Prov {
+    /// copied from `file` (index into Prog.files) at byte offset `off`
+    Src { file: usize, off: usize },
+    /// produced by expanding a usage in active text of macro `name`, whose definition stands in `def_file`
+    /// with its body text starting at `body_begin`; `usage` numbers the usages
+    Exp { name: String, def_file: usize, body_begin: usize, usage: usize },
+    /// synthesised (`__LINE__, `__FILE__, caller-supplied or predefined macro text)
+    Synth,
+}
+
 #[derive(Clone, Debug, Default)]
 pub struct Expect {
+    pub prov: Vec<Prov>,
     pub tokens: Vec<String>,
     pub table: BTreeMap<String, TableEntry>,
     pub error: Option<ErrExp>,
@@ -373,6 +398,8 @@ pub struct Eval<'a> {
     pub q: Quirks,
     pub table: BTreeMap<String, TableEntry>,
     pub out: Vec<String>,
+    pub prov: Vec<Prov>,
+    usage_counter: usize,
     pub live_payload: Vec<String>,
     pub dead_payload: Vec<String>,
     pub cov_cleared: bool,
@@ -443,6 +470,8 @@ impl<'a> Eval<'a> {
             q,
             table,
             out: Vec::new(),
+            prov: Vec::new(),
+            usage_counter: 0,
             live_payload: Vec::new(),
             dead_payload: Vec::new(),
             cov_cleared: false,
@@ -458,6 +487,7 @@ impl<'a> Eval<'a> {
     pub fn run(mut self, file: usize) -> Expect {
         let err = self.file(file, 0).err();
         Expect {
+            prov: self.prov,
             tokens: self.out,
             table: self.table,
             error: err,
@@ -471,47 +501,60 @@ impl<'a> Eval<'a> {
         if depth > 64 {
             return Err(err(ErrKind::Recursion));
         }
-        let items = self.prog.files[fi].items.clone();
-        self.items(&items, fi, depth)
+        let prog: &'a Prog = self.prog;
+        self.items(&prog.files[fi].items, fi, depth)
     }
 
-    fn items(&mut self, items: &[Item], fi: usize, depth: usize) -> Result<(), ErrExp> {
+    /// tokens of a piece of source text copied verbatim from `fi` at `off`
+    fn emit_src(&mut self, text: &str, fi: usize, off: usize) {
+        let (toks, _) = lexer::lex(text);
+        for t in toks {
+            if lexer::is_trivia(t.k) {
+                continue;
+            }
+            self.out.push(text[t.s..t.e].to_string());
+            self.prov.push(Prov::Src { file: fi, off: off + t.s });
+        }
+    }
+
+    fn items(&mut self, items: &'a [Item], fi: usize, depth: usize) -> Result<(), ErrExp> {
         for it in items {
+            let at = self.rendered.pos.get(&(it as *const Item as usize)).copied().unwrap_or(usize::MAX / 4);
             match it {
                 Item::Tok(t) => {
-                    self.out.push(t.clone());
+                    self.emit_src(t, fi, at);
                     self.live_payload.push(t.clone());
                 }
-                Item::Str(s) => {
-                    self.out.push(format!("\"{}\"", s));
-                    self.out.push(";".into());
-                }
+                Item::Str(s) => self.emit_src(&format!("\"{}\";", s), fi, at),
                 Item::Comment(_) => {}
                 Item::Define(m) => {
-                    lex_into(&mut self.out, &render_define(m));
+                    let d = render_define(m);
+                    self.emit_src(&d, fi, at);
                     if !is_pre(&m.name) {
-                        self.table.insert(m.name.clone(), TableEntry::Def(m.clone()));
+                        self.table.insert(m.name.clone(), TableEntry::Def(m.clone(), fi, at + define_head_len(m)));
                     }
                 }
                 Item::Undef(n) => {
-                    lex_into(&mut self.out, &format!("`undef {}", n));
+                    self.emit_src(&format!("`undef {}", n), fi, at);
                     self.table.remove(n);
                 }
                 Item::UndefAll => {
-                    self.out.push("`undefineall".into());
+                    self.emit_src("`undefineall", fi, at);
                     self.table.clear();
                     self.cov_cleared = true;
                 }
-                Item::Kept(d) => lex_into(&mut self.out, d),
+                Item::Kept(d) => self.emit_src(d, fi, at),
                 Item::Line => {
                     let k = self.line_cursor[fi];
                     self.line_cursor[fi] += 1;
                     let ln = self.rendered.line_numbers[fi].get(k).copied().unwrap_or(0);
                     self.out.push(format!("{}", ln));
+                    self.prov.push(Prov::Synth);
                 }
                 Item::File => {
                     let p = (self.file_path)(&self.prog.files[fi].name);
                     self.out.push(format!("\"{}\"", p));
+                    self.prov.push(Prov::Synth);
                 }
                 Item::Cond { ifndef, chain, els } => {
                     let head = &chain[0].0;
@@ -550,22 +593,29 @@ impl<'a> Eval<'a> {
                         if taken.map(|t| !std::ptr::eq(t, b)).unwrap_or(true) {
                             self.line_cursor[fi] += count_lines(b);
                         } else {
-                            let t = taken.unwrap().clone();
-                            self.items(&t, fi, depth)?;
+                            self.items(b, fi, depth)?;
                         }
                     }
                     if let Some(e) = els {
                         if taken.map(|t| !std::ptr::eq(t, e)).unwrap_or(true) {
                             self.line_cursor[fi] += count_lines(e);
                         } else {
-                            let t = e.clone();
-                            self.items(&t, fi, depth)?;
+                            self.items(e, fi, depth)?;
                         }
                     }
                 }
                 Item::Usage { name, args } => {
+                    // nested expansions are flattened into the outermost usage's segment
+                    let prov = match self.table.get(name) {
+                        Some(TableEntry::Def(_, df, bb)) => Prov::Exp { name: name.clone(), def_file: *df, body_begin: *bb, usage: self.usage_counter },
+                        _ => Prov::Synth,
+                    };
+                    self.usage_counter += 1;
                     let toks = self.expand(name, args.as_ref().map(|v| v.as_slice()), 1)?;
-                    self.out.extend(toks);
+                    for t in toks {
+                        self.out.push(t);
+                        self.prov.push(prov.clone());
+                    }
                 }
                 Item::Include { name, style } => {
                     let fname = if *style >= 2 {
@@ -640,7 +690,7 @@ impl<'a> Eval<'a> {
                 }
                 Ok(o)
             }
-            TableEntry::Def(m) => {
+            TableEntry::Def(m, _, _) => {
                 let empty = vec![];
                 let formals = m.formals.as_ref().unwrap_or(&empty);
                 if !formals.is_empty() && args.is_none() {
@@ -757,6 +807,25 @@ impl<'a> Eval<'a> {
         }
         Ok(())
     }
+}
+
+/// length of "`define NAME" or "`define NAME(formals)": the body text (with its leading blank) starts there
+pub fn define_head_len(m: &MacroDef) -> usize {
+    let mut n = "`define ".len() + m.name.len();
+    if let Some(fs) = &m.formals {
+        n += 1;
+        for (i, (f, d)) in fs.iter().enumerate() {
+            if i > 0 {
+                n += 2;
+            }
+            n += f.len();
+            if let Some(x) = d {
+                n += 3 + x.len();
+            }
+        }
+        n += 1;
+    }
+    n
 }
 
 fn count_lines(items: &[Item]) -> usize {
